@@ -31,6 +31,12 @@ pub fn universe() -> Vec<(String, Option<J>)> {
         J::float(1.5),
         J::float(1e-17),
         J::float(0.1),
+        J::float(-0.5),
+        J::float(-1.5),
+        J::float(-3.75),
+        J::int(-3),
+        J::int(-2),
+        J::float(2.5),
         J::int(2),
         J::int(9007199254740991),
         J::int(-9007199254740991),
@@ -60,6 +66,10 @@ pub fn universe() -> Vec<(String, Option<J>)> {
         o(vec![("b", J::int(1))]),
         o(vec![("a", J::Arr(vec![J::int(1)]))]),
         o(vec![("a", J::Null)]),
+        o(vec![("'k'", J::int(1))]),
+        o(vec![("k", J::int(1))]),
+        o(vec![("\"k\"", J::int(1))]),
+        J::Arr(vec![o(vec![("'k'", J::int(1))])]),
     ];
     for v in vals {
         u.push((v.to_text(), Some(v)));
